@@ -420,6 +420,11 @@ func (e *Exec) specBinary(x *ast.BinaryExpr, env *SpecEnv) (Val, types.Type) {
 			}
 			b = SliceV{Base: bs.Base, Off: bs.Off, Len: bs.Len}
 		}
+		if isIface(ta) && !isIface(tb) {
+			b = e.boxIfConcrete(b, tb)
+		} else if isIface(tb) && !isIface(ta) {
+			a = e.boxIfConcrete(a, ta)
+		}
 		if isNilType(ta) && tb != nil {
 			ta = tb
 		}
@@ -483,6 +488,7 @@ func (e *Exec) specCall(c *ast.CallExpr, env *SpecEnv) (Val, types.Type) {
 		case "$forall", "$exists":
 			names := map[string]boundVar{}
 			var binders []string
+			qf := &qframe{}
 			n := len(c.Args) - 1
 			for i := 0; i < n; i += 2 {
 				vn := c.Args[i].(*ast.Ident).Name
@@ -495,13 +501,19 @@ func (e *Exec) specCall(c *ast.CallExpr, env *SpecEnv) (Val, types.Type) {
 				s := sortOfType(t)
 				binders = append(binders, fmt.Sprintf("(%s %s)", sn, s))
 				names[vn] = boundVar{SV{sn, s}, t}
+				qf.names = append(qf.names, sn)
 			}
+			e.qstack = append(e.qstack, qf)
 			body, _ := e.evalSpec1(c.Args[n], env.with(names))
+			e.qstack = e.qstack[:len(e.qstack)-1]
 			q := "forall"
+			bt := e.asBool(body)
+			// auxiliary typing facts (integer ranges, reference existence) about terms that mention the bound
+			// variables are dropped: attaching them would weaken hypotheses or strengthen goals by polarity
 			if id.Name == "$exists" {
 				q = "exists"
 			}
-			return bv(fmt.Sprintf("(%s (%s) %s)", q, strings.Join(binders, " "), e.asBool(body))), tBool
+			return bv(fmt.Sprintf("(%s (%s) %s)", q, strings.Join(binders, " "), bt)), tBool
 		case "old":
 			if len(c.Args) != 1 {
 				return e.specErr("old takes one argument")
@@ -566,6 +578,14 @@ func (e *Exec) specCall(c *ast.CallExpr, env *SpecEnv) (Val, types.Type) {
 				return iv(mkIte(sx("<=", x, y), x, y)), ta
 			}
 			return iv(mkIte(sx(">=", x, y), x, y)), ta
+		case "fdiv", "fmod":
+			a, ta := e.evalSpec1(c.Args[0], env)
+			b, _ := e.evalSpec1(c.Args[1], env)
+			op := "div"
+			if id.Name == "fmod" {
+				op = "mod"
+			}
+			return iv(sx(op, e.asInt(a), e.asInt(b))), ta
 		case "called", "ncalls":
 			name, k, _, ok := siteArgs(c.Args)
 			if !ok {
@@ -625,7 +645,8 @@ func (e *Exec) specCall(c *ast.CallExpr, env *SpecEnv) (Val, types.Type) {
 			return bv(tFalse), tBool
 		case "wraps":
 			a, _ := e.evalSpec1(c.Args[0], env)
-			b, _ := e.evalSpec1(c.Args[1], env)
+			b, tb := e.evalSpec1(c.Args[1], env)
+			b = e.boxIfConcrete(b, tb)
 			e.declareFun("wraps", []string{SInt, SInt}, SBool)
 			x, y := e.asInt(a), e.asInt(b)
 			return bv(mkAnd(mkNot(mkEq(x, "0")), mkOr(mkEq(x, y), sx("wraps", x, y)))), tBool
@@ -1018,4 +1039,23 @@ func (e *Exec) lemmaInstance(c Clause, env *SpecEnv) string {
 	}
 	e.trusted["lemma "+l.Name+" (proved separately, obligations 'lemma "+l.Name+"/*')"] = true
 	return mkImp(mkAnd(rs...), mkAnd(es...))
+}
+
+func isIface(t types.Type) bool {
+	if t == nil {
+		return false
+	}
+	_, ok := t.Underlying().(*types.Interface)
+	return ok
+}
+
+// boxIfConcrete converts a concrete (non-interface, typed) value into its interface representation.
+func (e *Exec) boxIfConcrete(v Val, t types.Type) Val {
+	if t == nil || isIface(t) || isNilType(t) || t == untypedInt {
+		return v
+	}
+	if b, ok := t.(*types.Basic); ok && b.Info()&types.IsUntyped != 0 {
+		return v
+	}
+	return e.box(v, t)
 }
